@@ -736,6 +736,22 @@ def weave_reassoc(w, sc, key):
         w.after(rx, sc[key + ".left.post"].replace("$LEFT", name), nth=n)
 
 
+
+PARSER_OWN = ["span", "reassociate_applications", "reassociate_products_and_quotients", "reassociate_sums_and_differences", "error_term",
+              "error_factory", "token_source_range", "empty_source_range", "collect_error_factories", "resolve_variables",
+              "collect_definitions", "check_definitions", "check_definition", "parse"]
+
+
+def guard_parser_bindings(parser_rs, repo):
+    """parser.rs: the functions under contract call each other (all defined in this file) and, from other modules, only
+    is_value / free_variables (stubs of U6) and the error helpers (stubs): the imports must be the expected ones and no
+    function under contract may be shadowed (cf. guard_bindings)."""
+    own = PARSER_OWN + [f for _, f in packrat_functions(repo)]
+    expected = {n: "" for n in own}
+    expected.update({"is_value": "evaluator", "free_variables": "term", "throw": "error", "listing": "error"})
+    guard_bindings(parser_rs, expected, own=tuple(own))
+
+
 def build_parser(repo, external=(), canary=None, with_witness=True, boost=False):
     b = Build("parser")
     log = b.log
@@ -749,6 +765,7 @@ def build_parser(repo, external=(), canary=None, with_witness=True, boost=False)
         key = {"reassociate_applications": "apps", "reassociate_products_and_quotients": "muls", "reassociate_sums_and_differences": "adds"}[canary[0]]
         sc[key + ".contract"] = sc[canary[1]]
     parser_rs = Source(repo, "src/parser.rs")
+    guard_parser_bindings(parser_rs, repo)
     error_rs = Source(repo, "src/error.rs")
     b.add(PARSER_HEADER)
     b.add(read("spec/parser_prelude.rs"))
@@ -1046,6 +1063,7 @@ def build_packrat(repo, external=(), canary=None, with_witness=True, boost=False
     log = b.log
     sc = sections(os.path.join(VERIF, "contracts/u5.vrs"))
     parser_rs = Source(repo, "src/parser.rs")
+    guard_parser_bindings(parser_rs, repo)
     error_rs = Source(repo, "src/error.rs")
     token_rs = Source(repo, "src/token.rs")
     b.add(PACKRAT_HEADER)
@@ -1316,6 +1334,7 @@ def build_resolve(repo, external=(), canary=None, with_witness=True, boost=False
         sc = dict(sc)
         sc[canary[0] + ".contract"] = sc[canary[1]]
     parser_rs = Source(repo, "src/parser.rs")
+    guard_parser_bindings(parser_rs, repo)
     term_rs = Source(repo, "src/term.rs")
     error_rs = Source(repo, "src/error.rs")
     b.add(RESOLVE_HEADER)
@@ -1679,6 +1698,7 @@ def build_pipeline(repo, external=(), canary=None, with_witness=True, boost=Fals
         sc = dict(sc)
         sc[canary[0] + ".contract." + flavor] = sc[canary[1]]
     parser_rs = Source(repo, "src/parser.rs")
+    guard_parser_bindings(parser_rs, repo)
     term_rs = Source(repo, "src/term.rs")
     error_rs = Source(repo, "src/error.rs")
     token_rs = Source(repo, "src/token.rs")
